@@ -179,6 +179,15 @@ static ZoneSpec gen_zone(Rng* r, int idx, bool allow_bad, bool allow_literal) {
                                                   "Fixed/UTC+24:00:00", "Fixed/UTC-00:00:37", "Fixed/UTC+25:00:00", "Fixed/UTC+24:00:01",
                                                   "fixed/utc+01:00:00", "Fixed/UTC+1:00:00", "UTC1", "utc"};
     z.key = r->pick(lits);
+    if (r->chance(0.4)) {
+      // Any spelling the built-in rule accepts or narrowly rejects: two digits per field, fields up to 99.
+      char b[40];
+      int hh = static_cast<int>(r->pick(std::vector<int>{0, 0, 1, 5, 12, 23, 23, 24, 24, 25, 99}));
+      int mm = static_cast<int>(r->pick(std::vector<int>{0, 0, 30, 59, 60, 60, 61, 90, 99}));
+      int ss = static_cast<int>(r->pick(std::vector<int>{0, 0, 1, 37, 59, 60, 60, 99}));
+      snprintf(b, sizeof b, "Fixed/UTC%c%02d:%02d:%02d", r->chance(0.5) ? '+' : '-', hh, mm, ss);
+      z.key = b;
+    }
   } else {
     z.base = "shipped:" + r->pick(popular());
   }
@@ -689,7 +698,8 @@ std::string ident_of(const Exec& x, const Slot& s) {
       if (!s.ok || s.z < 0) return "utc";
       const ZoneSpec& zs = x.c.zones[static_cast<size_t>(s.z)];
       int64_t off = 0;
-      if (zs.literal && builtin_name(zs.key, &off)) return off == 0 ? "utc" : "fixed:" + std::to_string(off);
+      // One cached object per name: a spelling such as +00:60:00 is a zone of its own, distinct from +01:00:00.
+      if (zs.literal && builtin_name(zs.key, &off)) return off == 0 ? "utc" : "fixed:" + std::to_string(off) + (zs.key == fixed_name(off) ? "" : ":" + zs.key);
       return "z" + std::to_string(s.z);
     }
   }
@@ -817,7 +827,8 @@ Outcome exec_conc(const ConcCase& c, bool keep_log, Stats* stats) {
           else want = run_query(get_utc_twin(), qr.q);
         } else if (id.compare(0, 6, "fixed:") == 0) {
           int64_t off = strtoll(id.c_str() + 6, nullptr, 10);
-          if (qr.q.k == Q_NAME) want = fixed_name(off);
+          // a zone loaded by name reports the name it was asked for (also a spelling such as +00:60:00); fixed_time_zone() the canonical one
+          if (qr.q.k == Q_NAME) want = (s.origin == OR_ZONE && s.z >= 0) ? x.c.zones[static_cast<size_t>(s.z)].key : fixed_name(off);
           else if (qr.q.k == Q_DESC || qr.q.k == Q_VERSION) skip = true;
           else if (!get_fixed_twin(off).first) skip = true;
           else want = run_query(get_fixed_twin(off).second, qr.q);
@@ -934,6 +945,7 @@ Outcome exec_conc(const ConcCase& c, bool keep_log, Stats* stats) {
     stats->add("switches", sr.switches);
     stats->add("contended_lock_waits", sr.contended_locks);
     if (sr.cond_waits) stats->add("cond_waits", sr.cond_waits);
+    if (sr.tls_blocks) stats->add("probe.thread_local_instances_created", sr.tls_blocks);
     if (sr.cond_timeouts) stats->add("cond_timeouts", sr.cond_timeouts);
     stats->add("loads", static_cast<int64_t>(x.loads.size()));
     stats->add("queries", static_cast<int64_t>(x.queries.size()));
